@@ -437,10 +437,9 @@ func tabGroup(op string) string {
 	return "kv"
 }
 
-func c19lin(c *run.Ctx) {
-	c.Need("c19_histories_checked", 1)
-	n := c.N(160, 6000)
-	model := porcupine.Model{
+// c19Model: the sequential specification of the reference store is the store itself, replayed (see replicaStep).
+func c19Model() porcupine.Model {
+	return porcupine.Model{
 		Init:  func() interface{} { return linState{digest: world.StructuralDigest(storage.NewMemoryStore())} },
 		Step:  replicaStep,
 		Equal: func(a, b interface{}) bool { return a.(linState).digest == b.(linState).digest },
@@ -465,7 +464,13 @@ func c19lin(c *run.Ctx) {
 		},
 		DescribeOperation: func(in, out interface{}) string { return fmt.Sprintf("%+v -> %v", in, out) },
 	}
-	c19hot(c, model)
+}
+
+func c19lin(c *run.Ctx) {
+	c.Need("c19_histories_checked", 1)
+	n := c.N(160, 6000)
+	model := c19Model()
+	c19hot(c, model, map[bool]int{true: 4000, false: 60000}[c.Quick()], 0)
 	for i := 0; i < n; i++ {
 		r := caseRng(c, i)
 		mem := storage.NewMemoryStore()
@@ -644,19 +649,17 @@ func replicaStep(state, input, output interface{}) (bool, interface{}) {
 
 // c19hot: bursts of identical operations on ONE key released from a barrier, the widest window for a
 // check-then-act split inside a single store operation. Each burst is a tiny history checked with porcupine.
-func c19hot(c *run.Ctx, model porcupine.Model) {
+// delay > 0 (builds with the lock observer only): every goroutine pauses that long before it waits for a table lock while the
+// burst runs; the checker's sequential replays run without the pause.
+func c19hot(c *run.Ctx, model porcupine.Model, bursts int, delay time.Duration) {
 	ctx := context.Background()
-	bursts := 4000
-	if !c.Quick() {
-		bursts = 60000
-	}
 	mkReq := func(id string) *fosite.Request {
 		q := fosite.NewRequest()
 		q.ID = id
 		q.Session = world.NewSess("u")
 		return q
 	}
-	kinds := []string{"jti-set", "jti-mixed", "code-inval", "rt-revoke", "at-revoke"}
+	kinds := []string{"jti-set", "jti-mixed", "code-inval", "rt-revoke", "at-revoke", "at-revoke-two"}
 	for b := 0; b < bursts; b++ {
 		mem := storage.NewMemoryStore()
 		kind := kinds[b%len(kinds)]
@@ -675,8 +678,15 @@ func c19hot(c *run.Ctx, model porcupine.Model) {
 			seq(sop{Op: "rt-create", Key: key, Req: "r1"}, errStr(mem.CreateRefreshTokenSession(ctx, key, "", mkReq("r1"))))
 		case "at-revoke":
 			seq(sop{Op: "at-create", Key: key, Req: "r1"}, errStr(mem.CreateAccessTokenSession(ctx, key, mkReq("r1"))))
+		case "at-revoke-two":
+			// one request owns two access tokens (the hybrid flow): revoking by request id removes both AT ONCE - a reader that
+			// finds the newer one gone and then the older one still there has seen half of the operation
+			seq(sop{Op: "at-create", Key: key + "-old", Req: "r1"}, errStr(mem.CreateAccessTokenSession(ctx, key+"-old", mkReq("r1"))))
+			seq(sop{Op: "at-create", Key: key + "-new", Req: "r1"}, errStr(mem.CreateAccessTokenSession(ctx, key+"-new", mkReq("r1"))))
 		}
 		const G = 8
+		var extraMu sync.Mutex
+		var extra []porcupine.Operation
 		outs := make([]porcupine.Operation, G)
 		var wg sync.WaitGroup
 		start := make(chan struct{})
@@ -722,6 +732,28 @@ func c19hot(c *run.Ctx, model porcupine.Model) {
 						in.Op = "rt-del"
 						out = errStr(mem.DeleteRefreshTokenSession(ctx, key))
 					}
+				case "at-revoke-two":
+					if g == 0 {
+						in.Op = "at-revoke"
+						out = errStr(mem.RevokeAccessToken(ctx, "r1"))
+					} else {
+						// ordered pairs of reads: the newer token first, then the older one
+						var mine []porcupine.Operation
+						for k := 0; k < 6; k++ {
+							for _, suffix := range []string{"-new", "-old"} {
+								a := atomic.AddInt64(&clock, 1)
+								_, err := mem.GetAccessTokenSession(ctx, key+suffix, nil)
+								b := atomic.AddInt64(&clock, 1)
+								mine = append(mine, porcupine.Operation{ClientId: g + 1, Input: sop{Op: "at-get", Key: key + suffix, Req: "r1"}, Call: a, Output: errStr(err), Return: b})
+							}
+						}
+						extraMu.Lock()
+						extra = append(extra, mine[1:]...)
+						extraMu.Unlock()
+						in, t0, out = mine[0].Input.(sop), mine[0].Call, mine[0].Output.(string)
+						outs[g] = mine[0]
+						return
+					}
 				case "at-revoke":
 					switch g % 3 {
 					case 0:
@@ -740,9 +772,11 @@ func c19hot(c *run.Ctx, model porcupine.Model) {
 				outs[g] = porcupine.Operation{ClientId: g + 1, Input: in, Call: t0, Output: out, Return: t1}
 			}(g)
 		}
+		world.LockDelay(delay)
 		close(start)
 		wg.Wait()
-		hist := append(pre, outs...)
+		world.LockDelay(0)
+		hist := append(append(pre, outs...), extra...)
 		res, _ := porcupine.CheckOperationsVerbose(model, hist, 10*time.Second)
 		c.Eval(int64(len(hist)))
 		c.Count("c19_hot_bursts", 1)
@@ -751,7 +785,7 @@ func c19hot(c *run.Ctx, model porcupine.Model) {
 			for _, o := range hist {
 				lines = append(lines, fmt.Sprintf("client %d [%d,%d] %+v -> %v", o.ClientId, o.Call, o.Return, o.Input, o.Output))
 			}
-			c.Violate(run.Violation{Kind: "not-linearizable", Key: "not-linearizable burst " + kind, Detail: "8 simultaneous operations on one key returned results no sequential order explains", History: lines})
+			c.Violate(run.Violation{Kind: "not-linearizable", Key: "not-linearizable burst " + kind, Detail: "simultaneous operations on one key / one request returned results no sequential order explains", History: lines})
 		}
 	}
 	c.Distinct[fmt.Sprintf("hot-key bursts kinds=%v", kinds)]++
